@@ -183,7 +183,7 @@ func (in *Instance) ProjectState() (M, []string) {
 	s["attesters"], s["used"], s["pairs"], s["msgrs"], s["limits"] = atts, used, pairs, msgrs, limits
 	// ledger
 	bal := M{}
-	for _, sym := range []string{"MODULE", "zero", "x1", "x2", "s8", "l33", "a1", "a2", "a3", "a4", "a5", "a6", "a7", "a8"} {
+	for _, sym := range []string{"MODULE", "zero", "x1", "x2", "s8", "l33", "p1", "a1", "a2", "a3", "a4", "a5", "a6", "a7", "a8"} {
 		bal[sym] = 0
 	}
 	supply := 0
